@@ -6,7 +6,7 @@ cd "$DIR" || exit 2
 fail=0
 for i in $(seq 1 $N); do
   out=$(env -u GOSUMDB -u GOTOOLCHAIN GOFLAGS=-mod=mod GOPROXY=off go test -vet=off -count=1 -timeout 90s ./... 2>&1)
-  if echo "$out" | grep -q '^FAIL\|^panic\|^--- FAIL'; then
+  hung=$(echo "$out" | grep -A3 "running tests:" | head -4 | tr "\n" " "); [ -n "$hung" ] && echo "   hung: $hung"; if echo "$out" | grep -q '^FAIL\|^panic\|^--- FAIL'; then
     fail=$((fail+1)); echo "run $i: FAIL"; echo "$out" | grep -E '^(--- FAIL|FAIL|panic|\s+.*_test.go:[0-9]+:)' | head -20
   else
     echo "run $i: ok"
